@@ -25,7 +25,7 @@ ASSUMPTIONS = [
     "PYTHONHASHSEED is fixed (0) in both the sequence process and the fresh baseline process",
     "for compiled ACLs only result equality under reuse is required (matching overwrites their scratch 'match' field)",
 ]
-FLOORS = {"quick": {"jobs_in_sequences": 60, "fresh_baselines": 30, "snapshots_compared": 180, "repeated_jobs": 6, "same_vendor_other_hw": 6, "acl_jobs": 6, "rule_mutating_logic_jobs": 4, "nested_dropped_row_jobs": 8, "reference_tracker_jobs": 6, "shared_compiled_acl_jobs": 36, "overlay_provider_jobs": 30, "reference_tracker_jobs_with_a_silent_generator": 6, "collecting_logic_pair_jobs": 12, "collecting_logic_jobs_refused": 6, "jobs_with_a_software_release": 40, "jobs_with_one_deep_acl_text_for_several_vendors": 20, "jobs_with_rows_matched_by_two_ordering_rules": 12, "overlay_providers_with_a_lazy_directory_list": 4},
+FLOORS = {"quick": {"jobs_in_sequences": 60, "fresh_baselines": 30, "snapshots_compared": 180, "repeated_jobs": 6, "same_vendor_other_hw": 6, "acl_jobs": 6, "rule_mutating_logic_jobs": 4, "nested_dropped_row_jobs": 8, "reference_tracker_jobs": 6, "shared_compiled_acl_jobs": 36, "overlay_provider_jobs": 30, "reference_tracker_jobs_with_a_silent_generator": 6, "collecting_logic_pair_jobs": 12, "collecting_logic_jobs_refused": 6, "jobs_with_a_software_release": 40, "jobs_with_one_deep_acl_text_for_several_vendors": 20, "jobs_with_rows_matched_by_two_ordering_rules": 12, "overlay_providers_with_a_lazy_directory_list": 4, "jobs_of_a_vendor_that_borrows_another_vendors_rule_text": 16},
           "thorough": {"jobs_in_sequences": 2500, "fresh_baselines": 400, "snapshots_compared": 7500, "repeated_jobs": 200, "same_vendor_other_hw": 200, "acl_jobs": 200}}
 NPROC = {"quick": 8, "thorough": 16}
 FAMILIES = {"huawei": ["Huawei", "Huawei CE6870", "Huawei NE40E-X8", "Huawei Quidway S5300"], "huawei ce": ["Huawei CE0000", "Huawei NE40E-X8", "Huawei Quidway S5700"],
@@ -52,6 +52,16 @@ NESTED = [
      "new": "interface Ethernet1/1\n channel-group 1 mode active\n mtu 9100\ninterface port-channel1\n mtu 9100\n"},
     {"kind": "hand", "model": "Huawei OptiXtrans", "old": "foo bar\n baz qux\n  deep er\n", "new": "foo bar\n baz qux\n  deep er\n quux 1\n"},
     {"kind": "hand", "model": "B4com", "old": "foo bar\n baz qux\n", "new": "foo bar\n baz quz\n"},
+]
+
+# vendors that no corpus sample covers: H3C takes another vendor's rule text (an alias) and has no ordering text of its own
+ALIAS_JOBS = [
+    {"kind": "hand", "model": "H3C", "old": "", "new": "bgp 200\n peer 2.2.2.2 as-number 2\nvlan batch 10 20\ninterface GE1/0/1\n port link-type trunk\n port trunk allow-pass vlan 10\nsysname a\n"},
+    {"kind": "hand", "model": "H3C S6850", "old": "interface GE1/0/1\n port link-type trunk\n description a\nvlan batch 10\nntp-service unicast-server 1.1.1.1\n",
+     "new": "interface GE1/0/1\n description b\nvlan batch 20\nntp-service unicast-server 2.2.2.2\nsysname b\n"},
+    {"kind": "hand", "model": "H3C", "old": "sysname a\nacl number 3000\n rule 5 permit ip\n", "new": "sysname b\nacl number 3000\n rule 5 deny ip\ninterface GE1/0/2\n description x\n"},
+    {"kind": "hand", "model": "Nokia", "old": "system {\n    name \"a\"\n}\n", "new": "system {\n    name \"b\"\n    location \"x\"\n}\n"},
+    {"kind": "hand", "model": "Ribbon", "old": "system {\n    host-name a;\n}\n", "new": "system {\n    host-name b;\n    location x;\n}\n"},
 ]
 
 # jobs sharing ONE compiled ACL object (compile_acl_text is cached per text): job A has a row matched by two ACL rules whose
@@ -266,6 +276,10 @@ def plan(tier, seed):
         pv = rng.choice(VLAN_PAIRS)
         at = rng.randrange(len(seq) + 1)
         seq[at:at] = [dict(pv[0]), dict(pv[1])]
+        arng = random.Random("C20/alias/%s/%s/%s" % (tier, seed, q))
+        aj = arng.choice(ALIAS_JOBS[:3])
+        for j_ in [aj, aj, arng.choice(ALIAS_JOBS)]:       # the alias vendor's job comes back later in the same process (first use and re-use of its rulebook)
+            seq.insert(arng.randrange(len(seq) + 1), dict(j_))
         specs.append({"mode": "seq", "tier": tier, "seed": seed, "seq": seq})
     specs.append({"mode": "overlay", "tier": tier, "seed": seed})
     return specs
@@ -347,7 +361,7 @@ def compute(hw, old, new, acl_text, synth=False, refs=None):
         out["diff"] = norm_diff(diff)
         cp = fmt.cmd_paths(patch)
         out["cmds"] = [list(p) for p in cp]
-        out["cmd_contexts"] = [json.loads(json.dumps(c, default=str, sort_keys=True)) for c in cp.values()]  # what %ifcontext deploy rules look at
+        out["cmd_contexts"] = [json.loads(json.dumps(c, default=str, sort_keys=True)) for _, c in cp.items()]  # what %ifcontext deploy rules look at
     except Exception as e:
         out["error"] = type(e).__name__
     try:
@@ -483,6 +497,8 @@ def run_seq(spec, acc):
                 acc.count("reference_tracker_jobs_with_a_silent_generator")
         if job.get("soft"):
             acc.count("jobs_with_a_software_release")
+        if job["model"].startswith("H3C"):
+            acc.count("jobs_of_a_vendor_that_borrows_another_vendors_rule_text")
         if job.get("acl") == DEEP_ACL:
             acc.count("jobs_with_one_deep_acl_text_for_several_vendors")
         if any(job.get("old") == t_["old"] and job["model"] == t_["model"] for t_ in TWO_ORDER_RULES):
